@@ -183,7 +183,7 @@ class Resolver(dns.resolver.BaseResolver):
             name,
             dns.rdatatype.AAAA,
             raise_on_no_answer=False,
-            lifetime=self._compute_timeout(start, lifetime),
+            lifetime=self._remaining_lifetime(start, lifetime),
             **modified_kwargs,
         )
         # Note that setting name ensures we query the same name
@@ -196,7 +196,7 @@ class Resolver(dns.resolver.BaseResolver):
             name,
             dns.rdatatype.A,
             raise_on_no_answer=False,
-            lifetime=self._compute_timeout(start, lifetime),
+            lifetime=self._remaining_lifetime(start, lifetime),
             **modified_kwargs,
         )
         answers = dns.resolver.HostAnswers.make(
